@@ -297,6 +297,11 @@ func genPrec(w *tr.W, r *rng.R, thorough bool) {
 			}
 		}
 		asgs = append(asgs, "") // no declaration at all: conflicts
+		// invalid declarations: an operator in two levels (PrecedenceLevels.Verify must reject them)
+		asgs = append(asgs, "L:"+ops[:1]+"/R:"+ops[:1])
+		if len(ops) >= 2 {
+			asgs = append(asgs, "L:"+ops[:1]+","+ops[1:2]+"/L:"+ops[1:2])
+		}
 		for _, a := range asgs {
 			g := exprGrammar(ops)
 			g.prec = a
